@@ -145,7 +145,7 @@ pub struct ColoredProcessor {
 
 impl ColoredProcessor {
   fn context_span(&self) -> usize {
-    (self.context.0 + self.context.1) as usize
+    self.context.0 as usize + self.context.1 as usize
   }
 
   fn diff_context(&self) -> usize {
